@@ -251,11 +251,12 @@ func (n *Nodis) LPopRPush(source, destination string) []byte {
 
 			return nil
 		}
+		src := meta.value.(*list.LinkedList)
 		if dst := tx.writeKey(destination, nil); dst.isOk() {
 			// a destination of another type fails the command before anything is popped
 			_ = dst.value.(*list.LinkedList)
 		}
-		v = meta.value.(*list.LinkedList).LPop(1)
+		v = src.LPop(1)
 		if v == nil {
 			return nil
 		}
@@ -286,11 +287,12 @@ func (n *Nodis) RPopLPush(source, destination string) []byte {
 		if !meta.isOk() {
 			return nil
 		}
+		src := meta.value.(*list.LinkedList)
 		if dst := tx.writeKey(destination, nil); dst.isOk() {
 			// a destination of another type fails the command before anything is popped
 			_ = dst.value.(*list.LinkedList)
 		}
-		v = meta.value.(*list.LinkedList).RPop(1)
+		v = src.RPop(1)
 		if v == nil {
 			return nil
 		}
